@@ -1,7 +1,7 @@
 #!/usr/bin/env python3
 """Copy verified seeded changes from /tmp/mutants/<ID>/<x>/ into /verif/seeded/<ID>-<x>/ (patch.diff, demo.rs, meta.json)."""
 import json, os, shutil, sys, glob
-for d in sorted(glob.glob('/tmp/mutants/C??/[a-h]')):
+for d in sorted(glob.glob('/tmp/mutants/C??/[a-l]')):
     v = os.path.join(d, 'verified.json')
     if not os.path.exists(v):
         continue
